@@ -389,12 +389,12 @@ func descList(vs []reflect.Value) string {
 func TestC11(t *testing.T) {
 	c := h.New(t, "C11")
 	defer c.Finish()
-	c.Rule("identity: Go pool value (46 types x seeds) bound to x and read back through 0-4 of: list element, map member/index, Go id(x), Go variadic idv, script identity functions (fixed, 2-ary, variadic, list-returning), variable, multi-assignment, ternary, parentheses; non-trivial = at least one step; distinct by (type, seed, source)")
-	h.Run(c, "identity", c.N(25000, 100000), genIdCase, idOracle)
 	c.Rule("calls: reflect.FuncOf signature over the pool (0-4 fixed parameters, optional variadic tail, 0-3 results) with a recording MakeFunc host; arguments are script literals (int, float, string, bool, nil, list, map) or bound Go pool values, aimed at the parameter types 87% of the time; shapes fixed/variadic x plain/spread, 20% wrong counts; non-trivial = some argument needs a non-identity conversion or the function is variadic or the call spreads or there are >= 2 results; distinct by (signature, source, bound values)")
 	h.Run(c, "calls", c.N(100000, 400000), genCallCase, callOracle)
 	c.Rule("members: struct pool value S reached by value, by pointer, as addressable slice element, as map value, inside a script list, through a pointer field; field read, field write (value aimed at the field type), method call (8 value-receiver and 4 pointer-receiver methods incl. variadic and multi-result, arguments as in calls, also through a bound method value), unknown member; reference = Go's own field access / method call on a copy with goConvert'ed parameters; non-trivial = everything except a plain field read on a by-value receiver")
 	h.Run(c, "members", c.N(40000, 160000), genMemCase, memOracle)
 	c.Rule("callbacks: script function (fixed arity, variadic, wrong arity) passed where a MakeFunc host expects func(T1..Tn)(R1..Rm), n<=3, m<=2; host invokes it 1-2 times with pool values; the function reports its parameters to a Go recorder and returns literals / its own parameters / wrong counts, throws or hits a runtime error; with and without try/catch around the enclosing call; all cases non-trivial")
 	h.Run(c, "callbacks", c.N(40000, 160000), genCbCase, cbOracle)
+	c.Rule("identity: Go pool value (46 types x seeds) bound to x and read back through 0-4 of: list element, map member/index, Go id(x), Go variadic idv, script identity functions (fixed, 2-ary, variadic, list-returning), variable, multi-assignment, ternary, parentheses; non-trivial = at least one step; distinct by (type, seed, source)")
+	h.Run(c, "identity", c.N(25000, 100000), genIdCase, idOracle)
 }
